@@ -67,9 +67,15 @@ theorem refsOf_append (A B : List (MKey × Elem)) : OMap.refsOf (A ++ B) = OMap.
 theorem refsOf_perm {A B : List (MKey × Elem)} (h : A.Perm B) : (OMap.refsOf A).Perm (OMap.refsOf B) :=
   h.filterMap _
 
-theorem getLast?_split {α : Type} {l : List α} {p : α} (h : l.getLast? = some p) : l = l.dropLast ++ [p] := by
-  have := List.dropLast_append_getLast? p (by simpa using h)
-  exact this.symm
+theorem getLast?_split {α : Type} : ∀ {l : List α} {p : α}, l.getLast? = some p → l = l.dropLast ++ [p]
+  | [], _, h => by simp at h
+  | [a], p, h => by
+    simp only [List.getLast?_singleton, Option.some.injEq] at h
+    subst h; rfl
+  | a :: b :: l, p, h => by
+    rw [List.getLast?_cons_cons] at h
+    have ih := getLast?_split (l := b :: l) h
+    rw [List.dropLast_cons_of_ne_nil (by simp), List.cons_append, ← ih]
 
 theorem set_last_eq {α : Type} {l : List α} {p : α} (h : l.getLast? = some p) (x : α) :
     l.set (l.length - 1) x = l.dropLast ++ [x] := by
